@@ -147,11 +147,38 @@ pub fn exec_geom(_ctx: &mut Ctx, t: &mut Toks) -> String {
 
 /// `own n (xc yc angle|- aspect height)*` — `exclusively_owned_areas` + `…_normalized_shares` on the set;
 /// per box: `cos sin` (f64), the 4 vertices of `Polygon::from(&box)`, `area()` (f32), the owned area (f64), the share (f32)
-pub fn exec_own(_ctx: &mut Ctx, t: &mut Toks) -> String {
+pub fn exec_own(ctx: &mut Ctx, t: &mut Toks) -> String {
+    exec_own_with(ctx, t, false)
+}
+
+/// `ownc …`: the same question on boxes that carried **another geometry when their vertices were generated**: each box is
+/// first built elsewhere (shifted, turned, rescaled), `gen_vertices()` is called, then its public fields are set to the
+/// requested geometry. The owned areas are a function of the boxes' current fields, so the answer must be that of `own`.
+pub fn exec_ownc(ctx: &mut Ctx, t: &mut Toks) -> String {
+    exec_own_with(ctx, t, true)
+}
+
+fn exec_own_with(_ctx: &mut Ctx, t: &mut Toks, moved_after_gen: bool) -> String {
     use geo::{Area, Polygon};
     use similari::utils::clipping::bbox_own_areas::{exclusively_owned_areas, exclusively_owned_areas_normalized_shares};
     let n = t.usize();
-    let boxes: Vec<Universal2DBox> = (0..n).map(|_| ubox(t)).collect();
+    let boxes: Vec<Universal2DBox> = (0..n)
+        .map(|_| {
+            let b = ubox(t);
+            if !moved_after_gen {
+                return b;
+            }
+            let mut old = Universal2DBox::new(b.xc + 7.0, b.yc - 3.0, Some(b.angle.unwrap_or(0.0) + 0.5), b.aspect * 1.3, b.height * 0.7);
+            old.gen_vertices();
+            old.xc = b.xc;
+            old.yc = b.yc;
+            old.angle = b.angle;
+            old.aspect = b.aspect;
+            old.height = b.height;
+            old.confidence = b.confidence;
+            old
+        })
+        .collect();
     let refs: Vec<&Universal2DBox> = boxes.iter().collect();
     let polys = exclusively_owned_areas(&refs);
     let shares = exclusively_owned_areas_normalized_shares(&refs, &polys);
